@@ -141,7 +141,7 @@ def canon_lines(lines):
     return out
 
 
-def run_driver(cmd, cases, wd, tag, env=None, timeout=3600):
+def run_driver(cmd, cases, wd, tag, env=None, timeout=4 * 3600):
     """Run a driver over the cases in parallel chunks; returns {cid: [lines]}."""
     chunks = _split(cases, NPROC)
     procs = []
